@@ -49,3 +49,37 @@ pub uninterp spec fn builtin_fixity(name: Id) -> Option<OpMeta>;
 pub fn builtin_fixity_lookup(name: &Id) -> (r: Option<&'static OpMeta>)
     ensures r is Some == builtin_fixity(*name) is Some, r is Some ==> *r->Some_0 == builtin_fixity(*name)->Some_0
 { unimplemented!() }
+
+// ---- the final fold of reparse: operators still waiting on the stack when the input is exhausted
+// THE SPECIFICATION: pending operators have strictly increasing precedence (or are right-associative at one level), so
+// they group to the RIGHT, in order, over all operands: a0 op0 (a1 op1 (... (a_{n-1} op_{n-1} a_n)))
+pub open spec fn nest(args: Seq<Tree>, ops: Seq<Op>, i: int) -> Tree
+    decreases ops.len() - i
+{
+    if i >= ops.len() || i < 0 { args[i] } else { node(args[i], ops[i], nest(args, ops, i + 1)) }
+}
+// merging the two topmost operands with the topmost operator does not change the nesting
+pub proof fn lemma_merge_top(args: Seq<Tree>, ops: Seq<Op>, i: int)
+    requires args.len() == ops.len() + 1, ops.len() >= 1, 0 <= i <= ops.len() - 1,
+    ensures nest(args, ops, i) == nest(
+        args.subrange(0, args.len() - 2).push(node(args[args.len() - 2], ops.last(), args[args.len() - 1])),
+        ops.drop_last(), i),
+    decreases ops.len() - i
+{
+    let n = args.len() as int;
+    let args2 = args.subrange(0, n - 2).push(node(args[n - 2], ops.last(), args[n - 1]));
+    let ops2 = ops.drop_last();
+    if i == ops.len() - 1 {
+        assert(nest(args, ops, i + 1) == args[i + 1]);
+        assert(nest(args, ops, i) == node(args[i], ops[i], args[i + 1]));
+        assert(nest(args2, ops2, i) == args2[i]);
+    } else {
+        lemma_merge_top(args, ops, i + 1);
+        assert(args2[i] == args[i]);
+        assert(ops2[i] == ops[i]);
+    }
+}
+#[verifier::external_body]
+pub fn rt_panic() -> !
+    requires false
+{ unimplemented!() }
